@@ -264,6 +264,15 @@ func FailedCondition() {
 	vrt.Note("input", in)
 	got, err := plush.Render(in, ctx)
 	vrt.Note("got", got)
+	if c != "missing.Field" {
+		// the unknown name sits inside a call in the condition: C05 makes that a
+		// failure of the render (plush tolerated it until 8857fdf); C07 only asks
+		// that, if it renders, the later conditions see the caller's values
+		if err != nil {
+			vrt.Cover("done")
+			return
+		}
+	}
 	vrt.Assert(err == nil, "a tolerated unknown identifier in a condition renders")
 	vrt.Assert(got == want, "after a condition that failed on an unknown identifier, later conditions see the caller's values")
 	vrt.Cover("done")
